@@ -11,6 +11,8 @@
 //! notification: the device sleeps on work it was not told about.  Device models of the harness act
 //! only in notify callbacks, spin hooks and explicit device steps, never between the index store
 //! and the driver's `should_notify`, so the sampled state is the state the driver decided on.
+//! Only entries made available while the device is live (DRIVER_OK) count: a device cannot be
+//! notified before that, and streams that drive a bare queue never set it.
 
 use crate::hal;
 use std::cell::RefCell;
@@ -29,10 +31,13 @@ struct WQ {
 struct Wake {
     enabled: bool,
     queues: Vec<WQ>,
+    /// transports whose device is live (DRIVER_OK set): only a live device can be notified, so
+    /// buffers posted during construction create no obligation at that time
+    live: Vec<usize>,
 }
 
 thread_local! {
-    static WAKE: RefCell<Wake> = RefCell::new(Wake { enabled: true, queues: vec![] });
+    static WAKE: RefCell<Wake> = RefCell::new(Wake { enabled: true, queues: vec![], live: vec![] });
 }
 
 /// new case: forget everything, oracle armed
@@ -41,6 +46,7 @@ pub fn reset() {
         let mut w = w.borrow_mut();
         w.enabled = true;
         w.queues.clear();
+        w.live.clear();
     });
 }
 
@@ -73,6 +79,17 @@ pub fn unregister(owner: usize, q: Option<u16>) {
     WAKE.with(|w| w.borrow_mut().queues.retain(|x| !(x.owner == owner && q.map(|q| q == x.q).unwrap_or(true))));
 }
 
+/// `Transport::set_status`
+pub fn status(owner: usize, status: u32) {
+    WAKE.with(|w| {
+        let mut w = w.borrow_mut();
+        w.live.retain(|o| *o != owner);
+        if status & 4 != 0 {
+            w.live.push(owner);
+        }
+    });
+}
+
 pub fn notified(owner: usize, q: u16) {
     WAKE.with(|w| {
         for x in w.borrow_mut().queues.iter_mut() {
@@ -92,6 +109,7 @@ pub fn on_store() {
         if !w.enabled {
             return;
         }
+        let live = w.live.clone();
         for x in w.queues.iter_mut() {
             let idx = match rd16(x.driver + 2) {
                 Some(v) => v,
@@ -101,6 +119,9 @@ pub fn on_store() {
                 continue;
             }
             x.last_idx = idx;
+            if !live.contains(&x.owner) {
+                continue;
+            }
             if x.event_idx {
                 // avail_event sits after the used ring: flags(2) idx(2) ring(8*size)
                 if let Some(ev) = rd16(x.device + 4 + 8 * x.size as u64) {
